@@ -653,7 +653,7 @@ func runC08(c *eng.Ctx, thorough bool) {
 				if v == nil || eng.Expr(v) == "0" {
 					continue
 				}
-				c.Prov(f, "transaction start index source", r, v, `LatestState.*\.Index$`)
+				c.Prov(f, "transaction start index source", r, v, `LatestState.*\.Index$`, `^const:0$`) // 0: no state machine yet
 			}
 		}
 	}
@@ -756,10 +756,7 @@ func runC08(c *eng.Ctx, thorough bool) {
 		c.Clause("R2", "C08.4")
 		idx := f.Signature.Results().Len() - 1
 		succ := eng.SuccessReturns(f, idx)
-		var rec []ssa.Instruction
-		for _, st := range eng.Stores(f, `^i\.operations$`) {
-			rec = append(rec, st)
-		}
+		rec := c08InmemRecordSites(c, f)
 		if !c.Floor(f, "i.operations append", len(rec), 1) {
 			continue
 		}
